@@ -351,6 +351,23 @@ pub fn run_line(line: &str) -> String {
             res_bytes(guard(|| Compress::compress(&p)))
         }
         ("rename", 5) => op_rename(w[1], w[2], w[3], w[4]),
+        ("script", _) if w.len() >= 2 => crate::script::run_script(w[1], &w[2..]),
+        ("synth", 2) => {
+            let t = match unhex(w[1]) { Some(p) => p, None => return "bad-hex".into() };
+            match std::str::from_utf8(&t) {
+                Ok(t) => match guard(|| gen::RR::from_string(t)) {
+                    Ok(Ok(rr)) => format!("ok {}", hex(&rr.packet)),
+                    Ok(Err(e)) => format!("err {}", err_kind(&e)),
+                    Err(()) => "panic".into(),
+                },
+                Err(_) => "not-utf8".into(),
+            }
+        }
+        ("name2raw", 3) => {
+            let n = match unhex(w[1]) { Some(p) => p, None => return "bad-hex".into() };
+            let z = if w[2] == "." { None } else { unhex(w[2]) };
+            res_bytes(guard(|| gen::raw_name_from_str(&n, z.as_deref())))
+        }
         ("iter", 2) => with_parsed(w[1], |pp| iter_dump(pp)),
         ("summary", 2) => with_parsed(w[1], |pp| summary_dump(pp)),
         ("hdr", 5) => op_hdr(w[1], w[2], w[3], w[4]),
